@@ -10,6 +10,7 @@ import (
 	"encoding/json"
 	"fmt"
 	"os"
+	"sort"
 	"strings"
 
 	"github.com/piotrnar/gocoin/lib/btc"
@@ -53,6 +54,14 @@ func readJSON(rel string) []interface{} {
 	return v
 }
 
+// decodeScript: btc.DecodeScript (the repo's own test-vector assembler) with a panic turned into an error.
+func decodeScript(s string) (res []byte, err error) {
+	if !guard("DecodeScript", func() { res, err = btc.DecodeScript(s) }) {
+		return nil, fmt.Errorf("btc.DecodeScript panicked")
+	}
+	return
+}
+
 func corpusVectors() {
 	// ---- script_tests.json: [[wit..., amount]?, scriptSig, scriptPubKey, flags, expected, comment]
 	n := 0
@@ -87,8 +96,8 @@ func corpusVectors() {
 		if bad || len(strs) < 4 {
 			continue
 		}
-		sig, e1 := btc.DecodeScript(strs[0])
-		pk, e2 := btc.DecodeScript(strs[1])
+		sig, e1 := decodeScript(strs[0])
+		pk, e2 := decodeScript(strs[1])
 		fl, okf := decodeFlags(strs[2])
 		if e1 != nil || e2 != nil || !okf {
 			r.Hit("script_tests.json:skipped-unparsable")
@@ -102,7 +111,8 @@ func corpusVectors() {
 		credit.Version = 1
 		credit.TxIn = []*btc.TxIn{{Input: btc.TxPrevOut{Vout: 0xffffffff}, ScriptSig: []byte{0, 0}, Sequence: 0xffffffff}}
 		credit.TxOut = []*btc.TxOut{{Pk_script: pk, Value: amount}}
-		h := btc.Sha2Sum(credit.Serialize())
+		var h [32]byte
+		guard("Tx.Serialize", func() { h = btc.Sha2Sum(credit.Serialize()) })
 		c := &Case{Kind: "vec-script_tests", Version: 1, LockTime: 0,
 			Ins:   []In{{PrevHash: h[:], Vout: 0, SigScript: sig, Sequence: 0xffffffff}},
 			Outs:  []Out{{Value: amount, Script: nil}},
@@ -140,7 +150,8 @@ func corpusVectors() {
 				r.Hit(file + ":skipped-flags-or-hex")
 				continue
 			}
-			tx, _ := btc.NewTx(raw)
+			var tx *btc.Tx
+			guard("NewTx", func() { tx, _ = btc.NewTx(raw) })
 			if tx == nil || len(tx.TxIn) == 0 {
 				r.Hit(file + ":skipped-undecodable-tx")
 				continue
@@ -159,8 +170,9 @@ func corpusVectors() {
 					okp = false
 					break
 				}
-				id := btc.NewUint256FromString(uu[0].(string))
-				pk, e := btc.DecodeScript(uu[2].(string))
+				var id *btc.Uint256
+				guard("NewUint256FromString", func() { id = btc.NewUint256FromString(uu[0].(string)) })
+				pk, e := decodeScript(uu[2].(string))
 				if id == nil || e != nil {
 					okp = false
 					break
@@ -518,14 +530,25 @@ func corpusHandmade() {
 	// ---- taproot
 	tk := newTapKey(g)
 	leafKey := newTapKey(g)
-	tapFlags := []uint32{consensusFlags, script.STANDARD_VERIFY_FLAGS, stdFlags, consensusFlags &^ script.VER_TAPROOT,
-		consensusFlags | script.VER_DIS_TAPVER | script.VER_DIS_SUCCESS | script.VER_DIS_PUBKEYTYPE}
-	two := func(kind string, pk []byte, fl uint32) *Case { // two inputs, one output: input 1 has no matching output
+	// multi: nIns inputs (all spending pk), nOuts outputs, input idx under test
+	multi := func(kind string, pk []byte, fl uint32, nIns, nOuts, idx int) *Case {
 		c := base1(kind, pk, 9000, fl)
-		c.Ins = append(c.Ins, In{PrevHash: sha2([]byte("second")), Vout: 1, Sequence: 0xffffffff})
-		c.Spent = append(c.Spent, Out{Value: 9000, Script: pk})
+		for i := 1; i < nIns; i++ {
+			c.Ins = append(c.Ins, In{PrevHash: sha2([]byte(fmt.Sprint("input-", i))), Vout: uint32(i), Sequence: 0xffffffff})
+			c.Spent = append(c.Spent, Out{Value: 9000, Script: pk})
+		}
+		for i := 1; i < nOuts; i++ {
+			c.Outs = append(c.Outs, Out{Value: 1000 + uint64(i), Script: HexB{0x51, byte(i)}})
+		}
+		c.Idx = idx
 		return c
 	}
+	// SIGHASH_SINGLE against the number of outputs: the last input WITH a matching output (valid), the first one
+	// without (idx == #outputs) and one further (idx > #outputs): BIP341 defines no message there, the spend is invalid
+	singleShapes := []struct {
+		name             string
+		nIns, nOuts, idx int
+	}{{"single-last-output", 3, 2, 1}, {"single-no-output", 2, 1, 1}, {"single-idx-gt-outputs", 3, 1, 2}, {"single-idx-gt-outputs+2", 5, 2, 4}}
 	for _, fl := range tapFlags {
 		outX, _, tweak := tapOutput(tk.X, nil)
 		pk := witprog(1, outX)
@@ -535,11 +558,12 @@ func corpusHandmade() {
 			c.setWit(signTap(c, g, dpriv, nil, nil, 0, ht, false))
 			run(c)
 		}
-		for _, ht := range []byte{3, 0x83, 1} { // SIGHASH_SINGLE on an input without output
-			c := two(fmt.Sprintf("p2tr-key:single-no-output-%02x", ht), pk, fl)
-			c.Idx = 1
-			c.setWit(signTap(c, g, dpriv, nil, nil, 0, ht, false))
-			run(c)
+		for _, sh := range singleShapes {
+			for _, ht := range []byte{3, 0x83, 1, 2} {
+				c := multi(fmt.Sprintf("p2tr-key:%s-%02x", sh.name, ht), pk, fl, sh.nIns, sh.nOuts, sh.idx)
+				c.setWit(signTap(c, g, dpriv, nil, nil, 0, ht, false))
+				run(c)
+			}
 		}
 		c := base1("p2tr-key:annex", pk, 9000, fl)
 		annex := cat([]byte{0x50}, g.Bytes(7))
@@ -569,6 +593,21 @@ func corpusHandmade() {
 
 		// script path: leaf = <leafKey> CHECKSIG, tree of depth 0, 1, 2
 		leafScr := cat(pushData(leafKey.X), []byte{0xac})
+		{ // the SIGHASH_SINGLE shapes on the script path (tapscript <key> CHECKSIG leaf)
+			lh := tapLeaf(0xc0, leafScr)
+			qx, par, _ := tapOutput(tk.X, lh)
+			ctl0 := byte(0xc0)
+			if par {
+				ctl0 |= 1
+			}
+			for _, sh := range singleShapes {
+				for _, ht := range []byte{3, 0x83, 1} {
+					c := multi(fmt.Sprintf("p2tr-script:%s-%02x", sh.name, ht), witprog(1, qx), fl, sh.nIns, sh.nOuts, sh.idx)
+					c.setWit(signTap(c, g, leafKey.Priv, nil, lh, 0xffffffff, ht, true), leafScr, cat([]byte{ctl0}, tk.X))
+					run(c)
+				}
+			}
+		}
 		for _, depth := range []int{0, 1, 2, 127, 128, 129} {
 			lh := tapLeaf(0xc0, leafScr)
 			root := lh
@@ -669,7 +708,13 @@ func corpusHandmade() {
 			"codesep":        cat([]byte{0xab}, pushData(kA.X), []byte{0xad, 0xab}, pushData(kB.X), []byte{0xac}),
 			"big-script":     cat(rep(0x61, 10500), []byte{0x51}),
 		}
-		for name, scr := range tscripts {
+		tnames := make([]string, 0, len(tscripts))
+		for name := range tscripts {
+			tnames = append(tnames, name)
+		}
+		sort.Strings(tnames) // map order is random; the PRNG stream (signature aux data) must not depend on it
+		for _, name := range tnames {
+			scr := tscripts[name]
 			lh := tapLeaf(0xc0, scr)
 			qx, par, _ := tapOutput(tk.X, lh)
 			c0 := byte(0xc0)
@@ -754,6 +799,71 @@ func corpusHandmade() {
 			}
 			c.setWit(append(w, scr, cat([]byte{c0}, tk.X))...)
 			run(c)
+		}
+	}
+
+	// ---- tapscript sigop budget: 50 + size of the WHOLE witness against 50 per check with a non-empty signature,
+	// exactly at the boundary (accepted), one below (rejected), one above; the slack supplied by NOPs in the script,
+	// by a dropped padding item, by the annex, by a deeper control block
+	{
+		bt, bA := newTapKey(g), newTapKey(g)
+		brun := func(sp budgetSpec) {
+			c, _, delta := budgetCase(g, bt, bA, sp)
+			r.Hit("budget:delta-" + deltaClass(delta))
+			run(c)
+		}
+		dis := uint32(consensusFlags | script.VER_DIS_PUBKEYTYPE)
+		for _, kind := range []string{"A", "U"} {
+			// below these k the untuned witness already exceeds 50·k: slack only (the whole-witness rule is what makes them valid)
+			for k := 1; k <= 3; k++ {
+				for _, fl := range []uint32{consensusFlags, stdFlags, dis} {
+					brun(budgetSpec{Checks: strings.Repeat(kind, k), Tune: tuneNone, Flags: fl})
+					brun(budgetSpec{Checks: strings.Repeat(kind, k), Tune: tuneNone, Flags: fl, Annex: 9, Depth: 1, Ht: 1})
+				}
+			}
+			ks := []int{4, 5, 7, 10}
+			if kind == "U" {
+				ks = []int{3, 4, 6, 9}
+			}
+			for _, k := range ks {
+				checks := strings.Repeat(kind, k)
+				for _, delta := range []int{0, -1, 1} {
+					for _, tune := range []int{tuneNops, tunePad, tuneAnnex} {
+						brun(budgetSpec{Checks: checks, Tune: tune, Delta: delta, Flags: consensusFlags})
+					}
+					// the deepest control block that still leaves room, fine-tuned by NOPs / by the annex; one level deeper overshoots
+					room := 50*k - (50 + map[string]int{"A": 135, "U": 73}[kind] + 2*(k-1))
+					if d := room / 32; d >= 1 {
+						if d > 4 {
+							d = 4
+						}
+						brun(budgetSpec{Checks: checks, Tune: tuneNops, Delta: delta, Depth: d, Flags: consensusFlags})
+						brun(budgetSpec{Checks: checks, Tune: tuneAnnex, Delta: delta, Depth: d, Flags: consensusFlags, Ht: 1})
+						brun(budgetSpec{Checks: checks, Tune: tunePad, Delta: delta, Depth: 1, Annex: 3, Flags: consensusFlags})
+					}
+				}
+				// the other flag sets at the boundary and just below it
+				for _, fl := range []uint32{script.STANDARD_VERIFY_FLAGS, stdFlags, consensusFlags &^ script.VER_TAPROOT, dis} {
+					brun(budgetSpec{Checks: checks, Tune: tuneNops, Delta: 0, Flags: fl})
+					brun(budgetSpec{Checks: checks, Tune: tuneNops, Delta: -1, Flags: fl})
+				}
+			}
+		}
+		// the depth of the control block alone decides (no NOPs, no padding, no annex): 7 real-key checks need 350, the
+		// witness gives 197+32·depth (valid from depth 5); 6 unknown-key checks need 300, the witness gives 133+32·depth (from 6)
+		for d := 3; d <= 7; d++ {
+			brun(budgetSpec{Checks: "AAAAAAA", Tune: tuneNone, Depth: d, Flags: consensusFlags})
+			brun(budgetSpec{Checks: "UUUUUU", Tune: tuneNone, Depth: d, Flags: consensusFlags})
+		}
+		// mixed key kinds, CHECKSIGADD, empty signatures (free of charge) in between
+		for _, checks := range []string{"AaUue", "eeeAaAaAe", "UuUuUuUu", "aaaaaaaaaa", "AUeaueAUeau"} {
+			for _, delta := range []int{0, -1, 1} {
+				for _, tune := range []int{tuneNops, tunePad, tuneAnnex} {
+					brun(budgetSpec{Checks: checks, Pick: true, Tune: tune, Delta: delta, Flags: consensusFlags, SigULen: 1 + delta + 1})
+				}
+			}
+			brun(budgetSpec{Checks: checks, Pick: true, Tune: tuneNops, Delta: 0, Flags: dis})
+			brun(budgetSpec{Checks: checks, Pick: true, Tune: tuneNops, Delta: 0, Flags: stdFlags, Depth: 2, Annex: 260})
 		}
 	}
 
